@@ -283,6 +283,17 @@ theorem step_linv {s : Script} (hf : Fused s) (hnp : NoPanic s) {c : Cfg} (hi : 
         simp only [List.length_cons] at h2
         simp only [POut.pos, List.length_cons, List.mem_range'_1]
         omega
+  | unw b n =>
+    have hme : (c.th t).pc.ticket = some (b, n) := by simp [hx, Pc.ticket]
+    have hcs : (c.th t).pc.inCS = true := by simp [hx, Pc.inCS]
+    have hold := fun l hl hlP => h.csNone l hl hlP t b n hcs hme
+    simp [hx, Pc.acc] at hold
+    simp only
+    refine linv_update hf hi h t _ c.R c.Y true c.P (Nat.le_refl _) (by simp [hx]) ?_ (fun _ _ _ => rfl) (by simp [Pc.inCS]) (fun p h1 h2 => by omega)
+    intro l hl hlP b0 n0 _ hb0
+    simp [Pc.ticket] at hb0
+    obtain ⟨rfl, rfl⟩ := hb0
+    simpa [Pc.acc] using hold l hl hlP
   | dead b n => simpa using h
 
 theorem linv_init (s : Script) (ps : Nat → List Req) : LInv s (init ps) := by
@@ -304,6 +315,38 @@ theorem linv_run {s : Script} (hf : Fused s) (hnp : NoPanic s) (σ : List Nat) {
 end Orx.IW
 
 namespace Orx.IW
+
+/-- no thread has unwound (or is unwinding) out of the critical section -/
+def ND (c : Cfg) : Prop := ∀ t b n, (c.th t).pc ≠ .unw b n ∧ (c.th t).pc ≠ .dead b n
+
+theorem step_nd {s : Script} (hnp : NoPanic s) {c : Cfg} (h : ND c) (t : Nat) : ND (step s t c) := by
+  intro u b n
+  by_cases hu : u = t
+  · subst hu
+    have h0 := h u
+    unfold step
+    generalize hx : c.th u = x at h0
+    obtain ⟨pc, todo, outs⟩ := x
+    have hret : ∀ (x : Thread) r o, (ret x r o).pc ≠ .unw b n ∧ (ret x r o).pc ≠ .dead b n := by
+      intro x r o; rcases ret_pc x r o with h1 | h1 <;> simp [h1]
+    cases pc with
+    | idle => cases todo with
+      | nil => simpa [hx] using h0 b n
+      | cons r rest => cases r <;> simp [setTh]
+    | ins r b' acc =>
+      simp only
+      cases hsp : s c.P with
+      | some v => simp only; split <;> simp [setTh]
+      | none => simp only; split
+                · simp [setTh]
+                · split <;> simp [setTh]
+      | panic => exact absurd hsp (hnp c.P)
+    | unw b' n' => exact absurd rfl (h0 b' n').1
+    | dead b' n' => exact absurd rfl (h0 b' n').2
+    | _ => simp only <;> repeat' (first | split | simp [setTh, hret])
+  · have : (step s t c).th u = c.th u := by
+      unfold step; repeat' (first | split | simp [setTh, hu])
+    rw [this]; exact h u b n
 
 /-- without `skip_to_end`: `completed` and every reported end are backed by a `None` of the wrapped iterator -/
 structure FInv (s : Script) (c : Cfg) : Prop where
@@ -338,7 +381,7 @@ theorem finv_update {s : Script} {c : Cfg} (h : FInv s c) (t : Nat) (x' : Thread
       · exact h1
     · simp [hu]; intro hf; exact nnb_mono hP (h.finNone u hf)
 
-theorem step_finv {s : Script} {c : Cfg} (hi : Inv s c) (h : FInv s c) (t : Nat) : FInv s (step s t c) := by
+theorem step_finv {s : Script} {c : Cfg} (hi : Inv s c) (hnd : ND c) (h : FInv s c) (t : Nat) : FInv s (step s t c) := by
   unfold step
   generalize hx : c.th t = x
   obtain ⟨pc, todo, outs⟩ := x
@@ -427,6 +470,7 @@ theorem step_finv {s : Script} {c : Cfg} (hi : Inv s c) (h : FInv s c) (t : Nat)
     | cons v rest =>
       simp only
       split <;> exact key _ (by simp)
+  | unw b n => exact absurd (by simp [hx]) (hnd t b n).1
   | dead b n => simpa using h
 
 theorem finv_init (s : Script) (ps : Nat → List Req) (hns : ∀ t, ∀ r ∈ ps t, r ≠ .skip) : FInv s (init ps) := by
@@ -437,7 +481,7 @@ theorem finv_init (s : Script) (ps : Nat → List Req) (hns : ∀ t, ∀ r ∈ p
 
 /-- all four invariants along any schedule -/
 theorem all_inv_run {s : Script} (hf : Fused s) (hnp : NoPanic s) (σ : List Nat) {c : Cfg}
-    (hi : Inv s c) (ho : OInv s c) (hl : LInv s c) (hfi : FInv s c) (hW : (run s σ c).R < W) :
+    (hi : Inv s c) (ho : OInv s c) (hl : LInv s c) (hfi : FInv s c) (hnd : ND c) (hW : (run s σ c).R < W) :
     Inv s (run s σ c) ∧ OInv s (run s σ c) ∧ LInv s (run s σ c) ∧ FInv s (run s σ c) := by
   induction σ generalizing c with
   | nil => exact ⟨hi, ho, hl, hfi⟩
@@ -445,7 +489,7 @@ theorem all_inv_run {s : Script} (hf : Fused s) (hnp : NoPanic s) (σ : List Nat
     simp only [run] at hW ⊢
     have h1 : (step s t c).R < W := Nat.lt_of_le_of_lt (run_R_mono s ts _) hW
     have h0 : c.R < W := Nat.lt_of_le_of_lt (step_R_mono s t c) h1
-    exact ih (step_inv hf hi h0 t) (step_oinv hi ho t) (step_linv hf hnp hi hl h0 t) (step_finv hi hfi t) hW
+    exact ih (step_inv hf hi h0 t) (step_oinv hi ho t) (step_linv hf hnp hi hl h0 t) (step_finv hi hnd hfi t) (step_nd hnp hnd t) hW
 
 /-- **Exactly once, wrapper over an arbitrary iterator.** For every fused, non-panicking wrapped iterator `s`,
 every family of per-thread request lists (single pulls, one-shot chunks, buffered chunks, loops; chunk sizes ≥ 1;
@@ -458,7 +502,7 @@ theorem exactly_once (s : Script) (hf : Fused s) (hnp : NoPanic s) (ps : Nat →
     (hquiet : ∀ t, ((run s σ (init ps)).th t).pc.inCS = false)
     (hend : ∃ t, POut.fin ∈ ((run s σ (init ps)).th t).outs) (p : Nat) :
     Delivered (run s σ (init ps)) p ↔ IsSome (s p) := by
-  obtain ⟨hi, ho, hl, hfi⟩ := all_inv_run hf hnp σ (inv_init s ps hok) (oinv_init s ps) (linv_init s ps) (finv_init s ps hns) hW
+  obtain ⟨hi, ho, hl, hfi⟩ := all_inv_run hf hnp σ (inv_init s ps hok) (oinv_init s ps) (linv_init s ps) (finv_init s ps hns) (by intro t b n; simp [init]) hW
   constructor
   · rintro ⟨t, o, hot, hp⟩
     have hg := ho.good t o hot
